@@ -24,6 +24,7 @@
 #include "DensityFunction.hpp"
 #include "DensityGridWriterFields.hpp"
 #include "GadgetDensityGridWriter.hpp"
+#include "HDF5Tools.hpp"
 
 static uint64_t mix(uint64_t x) {
   x += 0x9e3779b97f4a7c15ull;
@@ -198,6 +199,202 @@ static void op_snapb(const std::vector< std::string > &w, const std::string &dir
   std::fflush(stdout);
 }
 
+// ---------------------------------------------------------------------------------------------
+// snapidx <task|legacy> <nx> <ny> <nz> <gx> <gy> <gz> <B> <buffer>
+// Index maps of the REAL writer and readers (compared with Model/Snapshot.lean): box anchor 0, cell
+// size 1, every cell holds its own global one-index `cid` (density cid+1, temperature cid+1.25, ion
+// k cid+1+(k+2)/64, all exact doubles).  Printed as FNV digests:
+//   W: cid stored at every file position of NumberDensity (all other scalar datasets must agree)
+//   C: the same decoded from the Coordinates dataset
+//   P / R: file position whose value the plain / buffered reader returns for every cell (x,y,z order)
+// <B> (block size found in the writer's source) is only used by the model.
+class IdxFunction : public DensityFunction {
+public:
+  long n[3];
+  virtual DensityValues operator()(const Cell &cell) {
+    const CoordinateVector<> p = cell.get_cell_midpoint();
+    const long cid = ((long)std::floor(p.x()) * n[1] + (long)std::floor(p.y())) * n[2] +
+                     (long)std::floor(p.z());
+    DensityValues v;
+    v.set_number_density(cid + 1.);
+    v.set_temperature(cid + 1.25);
+    for (int ion = 0; ion < NUMBER_OF_IONNAMES; ++ion)
+      v.set_ionic_fraction(ion, cid + 1. + (ion + 2) / 64.);
+    return v;
+  }
+};
+
+static uint64_t fnv(uint64_t h, uint64_t x) { return (h ^ x) * 1099511628211ull; }
+static const uint64_t FNV0 = 14695981039346656037ull;
+static const uint64_t NOPOS = 4294967295ull;
+
+template < typename _reader_ >
+static uint64_t reader_positions(_reader_ &reader, const long n[3], const std::vector< long > &inv,
+                                 std::string &what, const char *rname) {
+  uint64_t h = FNV0;
+  const long total = n[0] * n[1] * n[2];
+  for (long ix = 0; ix < n[0]; ++ix)
+    for (long iy = 0; iy < n[1]; ++iy)
+      for (long iz = 0; iz < n[2]; ++iz) {
+        const long cid = (ix * n[1] + iy) * n[2] + iz;
+        const DensityValues v = reader(PointCell(CoordinateVector<>(ix + 0.5, iy + 0.5, iz + 0.5)));
+        const double d = v.get_number_density();
+        const long got = (d >= 1. && d < total + 1.) ? (long)std::floor(d) - 1 : -1;
+        h = fnv(h, (got >= 0 && inv[got] >= 0) ? (uint64_t)inv[got] : NOPOS);
+        bool same = got == cid && v.get_temperature() == cid + 1.25;
+        for (int ion = 0; same && ion < NUMBER_OF_IONNAMES; ++ion)
+          same = v.get_ionic_fraction(ion) == cid + 1. + (ion + 2) / 64.;
+        if (!same && what.empty()) {
+          std::ostringstream o;
+          o.precision(17);
+          o << rname << ": cell (" << ix << "," << iy << "," << iz << ") = cell number " << cid
+            << " gets density " << d << " temperature " << v.get_temperature() << " H fraction "
+            << v.get_ionic_fraction(0);
+          what = o.str();
+        }
+      }
+  return h;
+}
+
+static void op_snapidx(const std::vector< std::string > &w, const std::string &dir, long lineno) {
+  const bool legacy = w[1] == "legacy";
+  long n[3], g[3];
+  for (int k = 0; k < 3; ++k) {
+    n[k] = std::atol(w[2 + k].c_str());
+    g[k] = std::atol(w[5 + k].c_str());
+  }
+  const long buffer = std::atol(w[9].c_str());
+  const long total = n[0] * n[1] * n[2];
+  const bool cubic = !legacy && n[0] == n[1] && n[1] == n[2];
+  std::ostringstream pt;
+  pt << "SimulationBox:\n  anchor: [0. m, 0. m, 0. m]\n  sides: [" << n[0] << ". m, " << n[1] << ". m, "
+     << n[2] << ". m]\n  periodicity: [false, false, false]\n"
+     << "DensityGrid:\n" << (legacy ? "  type: Cartesian\n" : "") << "  number of cells: [" << n[0]
+     << ", " << n[1] << ", " << n[2] << "]\n";
+  if (!legacy)
+    pt << "DensitySubGridCreator:\n  number of subgrids: [" << g[0] << ", " << g[1] << ", " << g[2]
+       << "]\n  periodicity: [false, false, false]\n";
+  ParameterFile params;
+  {
+    std::istringstream is(pt.str());
+    params._yaml_dictionary = YAMLDictionary(is);
+  }
+  const CoordinateVector<> anchor =
+      params.get_physical_vector< QUANTITY_LENGTH >("SimulationBox:anchor");
+  const CoordinateVector<> sides =
+      params.get_physical_vector< QUANTITY_LENGTH >("SimulationBox:sides");
+  params.get_value< CoordinateVector< bool > >("SimulationBox:periodicity");
+  Box<> box(anchor, sides);
+  IdxFunction ff;
+  for (int k = 0; k < 3; ++k)
+    ff.n[k] = n[k];
+  uint_fast32_t fields[DENSITYGRIDFIELD_NUMBER];
+  for (int_fast32_t p = 0; p < DENSITYGRIDFIELD_NUMBER; ++p)
+    fields[p] = 0;
+  fields[DENSITYGRIDFIELD_COORDINATES] = true;
+  fields[DENSITYGRIDFIELD_NUMBER_DENSITY] = true;
+  fields[DENSITYGRIDFIELD_TEMPERATURE] = true;
+  fields[DENSITYGRIDFIELD_NEUTRAL_FRACTION] = (uint_fast32_t(1) << NUMBER_OF_IONNAMES) - 1;
+  const std::string prefix = "snapidx" + std::to_string(lineno) + "_";
+  {
+    GadgetDensityGridWriter writer(prefix, dir, false, DensityGridWriterFields(fields), nullptr);
+    if (legacy) {
+      params.get_value< std::string >("DensityGrid:type");
+      const CoordinateVector< uint_fast32_t > nc =
+          params.get_value< CoordinateVector< uint_fast32_t > >("DensityGrid:number of cells");
+      CartesianDensityGrid grid(box, CoordinateVector< int_fast32_t >(nc.x(), nc.y(), nc.z()));
+      std::pair< cellsize_t, cellsize_t > block = std::make_pair(0, grid.get_number_of_cells());
+      grid.initialize(block, ff);
+      writer.write(grid, 0, params);
+    } else {
+      DensitySubGridCreator< DensitySubGrid > creator(box, params);
+      creator.initialize(ff);
+      writer.write(creator, 0, params);
+    }
+  }
+  const std::string file = dir + "/" + prefix + "000.hdf5";
+  // the raw datasets
+  std::string misaligned;
+  uint64_t hw = FNV0, hc = FNV0;
+  std::vector< long > inv(total, -1);
+  {
+    HDF5Tools::HDF5File h5 = HDF5Tools::open_file(file, HDF5Tools::HDF5FILEMODE_READ);
+    HDF5Tools::HDF5Group grp = HDF5Tools::open_group(h5, "PartType0");
+    const std::vector< double > dens = HDF5Tools::read_dataset< double >(grp, "NumberDensity");
+    const std::vector< double > temp = HDF5Tools::read_dataset< double >(grp, "Temperature");
+    const std::vector< CoordinateVector<> > coords =
+        HDF5Tools::read_dataset< CoordinateVector<> >(grp, "Coordinates");
+    std::vector< std::vector< double > > ions(NUMBER_OF_IONNAMES);
+    for (int ion = 0; ion < NUMBER_OF_IONNAMES; ++ion)
+      ions[ion] = HDF5Tools::read_dataset< double >(grp, "NeutralFraction" + get_ion_name(ion));
+    HDF5Tools::close_group(grp);
+    HDF5Tools::close_file(h5);
+    for (long k = 0; k < total; ++k) {
+      const double d = k < (long)dens.size() ? dens[k] : 0.;
+      const long cid = (d >= 1. && d < total + 1. && d == std::floor(d)) ? (long)d - 1 : -1;
+      hw = fnv(hw, cid >= 0 ? (uint64_t)cid : NOPOS);
+      if (cid >= 0)
+        inv[cid] = k;
+      long ccid = -1;
+      if (k < (long)coords.size()) {
+        const long cx = (long)std::floor(coords[k].x()), cy = (long)std::floor(coords[k].y()),
+                   cz = (long)std::floor(coords[k].z());
+        if (cx >= 0 && cx < n[0] && cy >= 0 && cy < n[1] && cz >= 0 && cz < n[2])
+          ccid = (cx * n[1] + cy) * n[2] + cz;
+      }
+      hc = fnv(hc, ccid >= 0 ? (uint64_t)ccid : NOPOS);
+      if (misaligned.empty()) {
+        std::ostringstream o;
+        o.precision(17);
+        if (ccid != cid)
+          o << "position " << k << ": NumberDensity holds cell " << cid << ", Coordinates cell " << ccid;
+        else if (k >= (long)temp.size() || temp[k] != d + 0.25)
+          o << "position " << k << ": NumberDensity holds cell " << cid << ", Temperature "
+            << (k < (long)temp.size() ? temp[k] : -1.);
+        else
+          for (int ion = 0; ion < NUMBER_OF_IONNAMES; ++ion)
+            if (k >= (long)ions[ion].size() || ions[ion][k] != d + (ion + 2) / 64.) {
+              o << "position " << k << ": NumberDensity holds cell " << cid << ", NeutralFraction"
+                << get_ion_name(ion) << " holds " << (k < (long)ions[ion].size() ? ions[ion][k] : -1.)
+                << " (cell " << (k < (long)ions[ion].size() ? std::floor(ions[ion][k]) - 1 : -1.)
+                << ")";
+              break;
+            }
+        misaligned = o.str();
+      }
+    }
+  }
+  std::string what_plain, what_buffered;
+  uint64_t hp, hr = 0;
+  {
+    CMacIonizeSnapshotDensityFunction reader(file, false, false, 1.e-6, nullptr);
+    reader.initialize();
+    hp = reader_positions(reader, n, inv, what_plain, "CMacIonizeSnapshotDensityFunction");
+    reader.free();
+  }
+  if (cubic) {
+    BufferedCMacIonizeSnapshotDensityFunction reader(
+        file, buffer, box, CoordinateVector< uint_fast32_t >(n[0], n[1], n[2]), nullptr);
+    reader.initialize();
+    hr = reader_positions(reader, n, inv, what_buffered, "BufferedCMacIonizeSnapshotDensityFunction");
+    reader.free();
+  }
+  unlink(file.c_str());
+  std::printf("ok %ld W=%" PRIu64 " C=%" PRIu64 " P=%" PRIu64 " R=", total, hw, hc, hp);
+  if (cubic)
+    std::printf("%" PRIu64 "\n", hr);
+  else
+    std::printf("-\n");
+  if (!misaligned.empty())
+    std::printf("ORACLE line=%ld snapshot-datasets-misaligned (%s)\n", lineno, misaligned.c_str());
+  if (!what_plain.empty())
+    std::printf("ORACLE line=%ld snapshot-roundtrip-differs (%s)\n", lineno, what_plain.c_str());
+  if (!what_buffered.empty())
+    std::printf("ORACLE line=%ld snapshot-buffered-roundtrip-differs (%s)\n", lineno,
+                what_buffered.c_str());
+  std::fflush(stdout);
+}
+
 int main() {
   std::string line;
   long lineno = 0;
@@ -206,6 +403,10 @@ int main() {
   while (std::getline(std::cin, line)) {
     ++lineno;
     const std::vector< std::string > w = words(line);
+    if (w.size() == 10 && w[0] == "snapidx") {
+      op_snapidx(w, dir, lineno);
+      continue;
+    }
     if (w.size() == 15 && w[0] == "snapb") {
       op_snapb(w, dir, lineno);
       continue;
